@@ -19,11 +19,16 @@ from concurrent.futures import ThreadPoolExecutor
 VERIF = os.path.dirname(os.path.dirname(os.path.abspath(__file__)))
 
 
+MORPH = [""]
+
+
 def one(args):
     kind, path = args
-    p = subprocess.run(["/venv/bin/python", os.path.join(VERIF, "tools",
-                                                         "confirm_seed.py"),
-                        path, "--no-tests"], capture_output=True, text=True)
+    cmd = ["/venv/bin/python", os.path.join(VERIF, "tools", "confirm_seed.py"),
+           path, "--no-tests"]
+    if MORPH[0]:
+        cmd += ["--morph", MORPH[0]]
+    p = subprocess.run(cmd, capture_output=True, text=True)
     try:
         d = json.loads(p.stdout)
     except ValueError:
@@ -36,7 +41,10 @@ def main():
     ap.add_argument("-k", default="")
     ap.add_argument("-v", action="store_true")
     ap.add_argument("-j", type=int, default=4)
+    ap.add_argument("--morph", default="", help="apply these metamorph "
+                    "transformations on top of every patch first")
     a = ap.parse_args()
+    MORPH[0] = a.morph
     todo = [("benign", os.path.dirname(p)) for p in
             sorted(glob.glob(os.path.join(VERIF, "benign", "*", "patch.diff")))]
     todo += [("seeded", os.path.dirname(p)) for p in
